@@ -129,6 +129,23 @@ def run(tier, seed):
         (t.ok if ok else t.fail)('dependent shadows a constant', order, *([] if ok else ['order %r: %r' % (order, out)]))
     out = limited(lambda: S.gen_symbols_samples(['pi'], 1, {'pi': S.DependentSampler(formula='pi+1')}, {}, {}, {'pi': 3.0}))
     (t.ok if out[0] == 'ConfigError' else t.fail)('self-dependent shadowing a constant', 'pi', *([] if out[0] == 'ConfigError' else ['pi := pi+1 gave %r, expected ConfigError' % (out,)]))
+    # user constants override defaults of the same name (with suppress_warnings) in every sample and in the graded comparison
+    for dflt, user in (({'pi': 3.14159, 'e': 2.71828, 'i': 1j}, {'pi': 3, 'T': 1.5}), ({'pi': 3.14159}, {}), ({'a': 1, 'b': 2}, {'b': 20, 'a': 10}), ({}, {'k': 7})):
+        want = dict(dflt)
+        want.update(user)
+        before = (dict(dflt), dict(user))
+        got = S.construct_constants(dflt, user)
+        ok = got == want and got is not dflt and got is not user and (dflt, user) == before
+        (t.ok if ok else t.fail)('construct_constants (user constants win)', (repr(dflt), repr(user)), *([] if ok else ['construct_constants(%r, %r) = %r, expected %r (arguments untouched)' % (before[0], before[1], got, want)]))
+    g = fgm.FormulaGrader(answers='2*pi*r', variables=['r'], user_constants={'pi': 3}, suppress_warnings=True)
+    for sub, want_ok in (('6*r', True), ('2*3.141592653589793*r', False)):
+        out = limited(lambda: g(None, sub))
+        ok = out[0] == 'ok' and out[1]['ok'] is want_ok
+        (t.ok if ok else t.fail)('user constant overrides a default', sub, *([] if ok else ["FormulaGrader(answers='2*pi*r', user_constants={'pi': 3}, suppress_warnings=True)(None, %r): %r, expected ok=%s" % (sub, out, want_ok)]))
+    g = fgm.FormulaGrader(answers='c', variables=['c'], user_constants={'pi': 3}, suppress_warnings=True, sample_from={'c': S.DependentSampler(formula='pi')})
+    out = limited(lambda: g(None, '3'))
+    ok = out[0] == 'ok' and out[1]['ok'] is True
+    (t.ok if ok else t.fail)('user constant overrides a default', 'dependent', *([] if ok else ["a dependent variable defined as 'pi' with user_constants={'pi': 3} should equal 3: %r" % (out,)]))
     # contracts under CPython
     F = 'mitxgraders/sampling.py::'
     for it, sup in itertools.product([[], ['a'], ['a', 'b'], ('a', 'z')], [{}, {'a': 1}, {'a': 1, 'b': 2}]):
